@@ -100,8 +100,9 @@ def _parse_block(name, blk):
     m = re.search(r'Verification Time: ([0-9.]+)s', blk)
     if m:
         rec['time_s'] = float(m.group(1))
-    for fm in re.finditer(r'Failed Checks: (.*?)\n File: "(.*?)", line (\d+), in (\S+)', blk):
+    for fm in re.finditer(r'Failed Checks: (.*?)\n File: "(.*?)", line (\d+), in (\S+)', blk, re.S):
         desc, file, line, fn = fm.groups()
+        desc = ' '.join(desc.split())
         rec['failures'].append(dict(description=desc, file=file, line=int(line), function=fn))
         if 'unwinding assertion' in desc:
             rec['unwinding_failed'] = True
